@@ -11,6 +11,7 @@
 #include <cstring>
 #include <memory>
 #include <sstream>
+#include <thread>
 
 #include "complex.h"
 
@@ -211,10 +212,56 @@ void mutate(Slot& s, vf::Tape& t, vf::Ctx& ctx) {
 
 }  // namespace
 
+namespace {
+void run_single(vf::Tape& t, vf::Ctx& ctx);
+}
+
 namespace vf {
 const char* harness_name() { return kName; }
 
+#ifndef VF_THREADS
+void run_case(Tape& t, Ctx& ctx) { run_single(t, ctx); }
+#else
+// Thread variant (built with -fsanitize=thread): the tape is cut into 4 sub-tapes; 4 threads run them at the same time,
+// each on its own trees. Independent objects share nothing, so TSan must stay silent and every thread's oracle must hold.
 void run_case(Tape& t, Ctx& ctx) {
+  const unsigned kThreads = 4;
+  std::vector<std::vector<uint8_t>> sub(kThreads);
+  size_t total = t.size(), each = total / kThreads;
+  for (unsigned k = 0; k < kThreads; ++k)
+    for (size_t i = 0; i < each; ++i) sub[k].push_back(t.u8());
+  std::vector<Ctx> cs(kThreads);
+  std::vector<std::exception_ptr> errs(kThreads);
+  std::vector<std::thread> th;
+  for (unsigned k = 0; k < kThreads; ++k) {
+    cs[k].excluded_ids = ctx.excluded_ids;
+    th.emplace_back([&, k]() {
+      Tape tk(sub[k].data(), sub[k].size());
+      try {
+        run_single(tk, cs[k]);
+      } catch (...) {
+        errs[k] = std::current_exception();
+      }
+    });
+  }
+  for (auto& x : th) x.join();
+  bool nt = false;
+  for (unsigned k = 0; k < kThreads; ++k) {
+    ctx.desc << "--- thread " << k << "\n" << cs[k].desc.str();
+    for (auto& kv : cs[k].counters) ctx.counters[kv.first] += kv.second;
+    ctx.checks += cs[k].checks;
+    nt = nt || cs[k].nontrivial;
+  }
+  if (nt) ctx.mark_nontrivial();
+  for (unsigned k = 0; k < kThreads; ++k)
+    if (errs[k]) std::rethrow_exception(errs[k]);
+}
+#endif
+}  // namespace vf
+
+namespace {
+void run_single(vf::Tape& t, vf::Ctx& ctx) {
+  using namespace vf;
   std::vector<Slot> pool(1);
   pool.reserve(5);  // references to slots stay valid
   pool[0].st.reset(new ST());
@@ -430,4 +477,4 @@ void run_case(Tape& t, Ctx& ctx) {
       if (pool[i].st) verify(pool[i], ctx, "during teardown");
   }
 }
-}  // namespace vf
+}  // namespace
